@@ -24,6 +24,7 @@ import NanoVerif.Model.DisjointSet
 import NanoVerif.Model.GlueSvg
 import NanoVerif.Model.GradientParse
 import NanoVerif.Model.VarModel
+import NanoVerif.Model.ConfigValidate
 /-
 Correspondence driver.  One JSON object per input line: {"op": ..., ...}; one JSON object per
 output line.  Run: `lake env lean --run Driver.lean < ops.jsonl`.
@@ -477,6 +478,28 @@ def dispatch (op : String) (j : Json) : Except String Json := do
           | some r => return obj [("r", jQ r)]
           | none => return obj [("err", Json.str "ValueError")]
       | _ => throw "triple"
+  | "validate-config" =>
+      let names ← getStrs (← field j "names")
+      let vals ← getInts (← field j "vals")
+      let desc ← getInt (← field j "descender")
+      let clipq ← match fieldOpt j "clipq" with
+        | some .null => pure none
+        | some q => do pure (some (← getInt q))
+        | none => pure none
+      let fmt ← getStr (← field j "fmt")
+      let n ← getNat (← field j "masters")
+      let preds := obj [("has_bitmaps", Json.bool (Cfg.hasBitmaps fmt)), ("has_picosvgs", Json.bool (Cfg.hasPicosvgs fmt)),
+                        ("has_untouchedsvgs", Json.bool (Cfg.hasUntouchedsvgs fmt)), ("has_svgs", Json.bool (Cfg.hasSvgs fmt)),
+                        ("is_ot_svg", Json.bool (Cfg.isOtSvg fmt))]
+      let r := match Cfg.validate ⟨names.zip vals, desc, clipq, fmt, n⟩ with
+        | .ok _ => "ok"
+        | .error (.negative f) => "negative:" ++ f
+        | .error .descender => "descender"
+        | .error .clipq => "clipq"
+        | .error .sanity => "sanity"
+        | .error .vfBitmap => "vf-bitmap"
+        | .error .vfOtSvg => "vf-otsvg"
+      return obj [("r", Json.str r), ("preds", preds)]
   | "parse-linear" =>
       let vb ← getRect (← field j "vb")
       let asc ← getQ (← field j "asc")
